@@ -33,11 +33,10 @@ m = {
     "hooks": {"guard": "RP2_VERIF", "enable": "none needed: observation is by public API and run-time wrapping from the harness; RP2_VERIF=1 is exported to the code under test but no source commit reads it",
               "baseline_off_cmd": BASE, "source_commits": [], "add_only": True},
     "engines": [{"name": "lean-model+correspondence", "path": "lean/", "serves_properties": [c["property_id"] for c in checks],
-                 "kind_free_text": "hand-written executable Lean 4 model + machine-checked theorems; tables regenerated from the source each run; line-protocol differential correspondence against the real code"}],
+                 "kind_free_text": "hand-written executable Lean 4 model + machine-checked theorems; tables and the bodies of the arithmetic getters / predicates / constructors regenerated (translated) from the source each run; line-protocol differential correspondence against the real code"}],
     "checks": checks,
-    "notes": "All checks: regenerate lean/Rp2/Gen from /repo, lake build the property's theorem cone, audit axioms, run correspondence streams + oracles, replay known findings (known_findings.json).",
+    "notes": "All checks: regenerate lean/Rp2/Gen (tables + translated formulas) from /repo, lake build the property's theorem cone, audit axioms, run correspondence streams + oracles, replay known findings (known_findings.json).",
 }
-if na:
-    m["not_applicable"] = na
+m["not_applicable"] = na          # every property is claimed: the list is empty (kept explicit)
 json.dump(m, open(os.path.join(ROOT, "MANIFEST.json"), "w"), indent=1)
 print("MANIFEST.json:", len(checks), "checks,", len(na), "not claimed")
